@@ -53,7 +53,7 @@ ASSUMPTIONS = [
     "per-core field accesses address core 0 of the chip and select the core "
     "through the address",
 ]
-FLOORS = {"block_left_by_interrupt": 20, "discovered_connection_tries": 60, "discovery_from_a_named_chip": 10, "sibling_controller": 10, "signal_by_name": 30, "state_by_name": 20, "led_action": 10, "application_object_reused": 5, "method_call_checked": 500, "twin_compared": 400,
+FLOORS = {"cable_plugged_in_later": 20, "block_left_by_interrupt": 20, "discovered_connection_tries": 60, "discovery_from_a_named_chip": 10, "sibling_controller": 10, "signal_by_name": 30, "state_by_name": 20, "led_action": 10, "application_object_reused": 5, "method_call_checked": 500, "twin_compared": 400,
           "missing_argument_rejected": 40, "stack_restored": 300,
           "exception_exit": 60, "application_stop_signal": 20,
           "connection_choice": 300, "bmp_call_checked": 80}
@@ -1002,9 +1002,17 @@ def run_connections(case, ctx):
         c.eth_up = k not in case["down"] or xy == root
         c.ip = (10 | (k + 1) << 24 | xy[0] << 8 | xy[1] << 16)
         ips[xy] = ".".join(str((c.ip >> s) & 0xff) for s in (0, 8, 16, 24))
+    replug = (w // 4 + root[0] + len(case["down"]) +
+              len(case["targets"][0:1] and [case["targets"][0][0]])) % 2 == 0
     for xy, c in m.chips.items():
         (e, _) = c19.board_of(xy[0], xy[1], root[0], root[1])
         c.local_eth = (e[0] % w, e[1] % h)
+        if replug and c.local_eth in m.chips and \
+                not m.chips[c.local_eth].eth_up:
+            # a board whose cable was not plugged in when the machine
+            # booted: its chips adopted another board's Ethernet chip
+            # ("may not literally be the nearest Ethernet connected chip")
+            c.local_eth = root
     m.finalise()
     tries = 2 + (w // 4 + root[0]) % 4
     tmo = [0.5, 0.11, 1.3][(h // 4 + root[1] // 4) % 3]
@@ -1040,21 +1048,49 @@ def run_connections(case, ctx):
         set() if True else set()), "connections-discovered",
         "controller has %r, Ethernet-connected chips %r" %
         (sorted(k for k in mc.connections if k is not None), sorted(up)))
-    for (x, y) in case["targets"]:
-        x, y = x % w, y % h
-        mark = len(m.arrivals)
-        mc.read(0x60000000, 4, x, y, 0)
-        host = m.arrivals[mark][0]
-        (e, _) = c19.board_of(x, y, root[0], root[1])
-        e = (e[0] % w, e[1] % h) if torus else e
-        want = ips[e] if e in up else "eth-root"
-        ctx.hit("connection_choice")
-        check(host == want, "wrong-connection",
-              "command for chip %r left through %r; its board's Ethernet "
-              "chip is %r (%s)" % ((x, y), host, e,
-                                   "connected as %s" % ips.get(e)
-                                   if e in up else "not connected"),
-              dims=(w, h), root=root)
+    def judge_targets(targets, note=""):
+        for (x, y) in targets:
+            x, y = x % w, y % h
+            mark = len(m.arrivals)
+            mc.read(0x60000000, 4, x, y, 0)
+            host = m.arrivals[mark][0]
+            (e, _) = c19.board_of(x, y, root[0], root[1])
+            e = (e[0] % w, e[1] % h) if torus else e
+            want = ips[e] if e in up else "eth-root"
+            ctx.hit("connection_choice")
+            check(host == want, "wrong-connection",
+                  "command for chip %r left through %r; its board's Ethernet "
+                  "chip is %r (%s)%s" % ((x, y), host, e,
+                                         "connected as %s" % ips.get(e)
+                                         if e in up else "not connected",
+                                         note),
+                  dims=(w, h), root=root)
+    judge_targets(case["targets"])
+    late = [xy for xy in eths if not m.chips[xy].eth_up and xy not in cut]
+    if replug and late:
+        # the application surveys the machine, somebody plugs the missing
+        # cables in, discovery is run again ("existing connections will be
+        # retained"): commands for those boards now have a connection of
+        # their own
+        if (w + h) // 4 % 2:
+            mc.get_system_info()
+        for xy in late:
+            m.chips[xy].eth_up = True
+        m.finalise()
+        if not (w + h) // 4 % 2:
+            mc.get_system_info()
+        n2 = mc.discover_connections()
+        ctx.hit("cable_plugged_in_later")
+        check(n2 == len(late), "connections-discovered",
+              "%d boards were connected after the first discovery; the "
+              "second discovery reports %d new connections" % (len(late), n2))
+        up |= set(late)
+        on_late = [(xy[0] + dx, xy[1] + dy) for xy in late
+                   for dx, dy in ((0, 0), (1, 1), (3, 2), (4, 7))
+                   if (xy[0] + dx, xy[1] + dy) in m.chips]
+        judge_targets(on_late + case["targets"][:4],
+                      " (its cable was plugged in after the first discovery "
+                      "and a survey of the machine)")
     # the connections found by discovery belong to THIS controller: they
     # give up after its number of tries, spaced by its timeout
     for (x, y) in case["targets"][:3]:
